@@ -128,6 +128,26 @@ func specsC02(tier string) []seqmc.Spec {
 		cfg.ops = append(cfg.ops, del("t", "*", 4), del("t", "p4", 3))
 		out = append(out, mkSpec(cfg, 40))
 	}
+	// every history of <=4 (thorough 5) operations over a compact alphabet, the
+	// HISTORY being the state: a leaf added, refreshed in place, deleted by its
+	// own path / through an enclosing subtree / by a wildcard / with everything,
+	// re-delivered deletes, late (older) updates - in every order
+	{
+		depth := 4
+		if tier == "thorough" {
+			depth = 5
+		}
+		cfg := &specCfg{name: fmt.Sprintf("every history of <=%d operations (the history is the state): one leaf a/b/c and a sibling, updates at ts 1..3, deletes by exact path / enclosing subtree / wildcard / everything", depth), targets: []string{"t"}, eventDriven: true, fixedClock: 2, histKey: true,
+			oracles: oset("errclass", "state", "latest")}
+		for _, ts := range []int64{1, 2, 3} {
+			cfg.ops = append(cfg.ops, upd("t", "a/b/c", ts, ts))
+		}
+		cfg.ops = append(cfg.ops, upd("t", "a/b/d", 2, 1))
+		for _, q := range []string{"a/b/c", "a/b", "a/*/c", "*"} {
+			cfg.ops = append(cfg.ops, del("t", q, 2), del("t", q, 3))
+		}
+		out = append(out, mkSpec(cfg, depth))
+	}
 	// structured kinds and NaN on one leaf: never equal for the suppression
 	// test, yet a re-sent identical notification is stale and a different one
 	// at the same timestamp replaces
